@@ -26,6 +26,16 @@ CLAIMED = {
              "_join_exprs and the decomposer steps in front of the scatter are not modelled in Lean (the harness feeds the real order); coordinates are assumed in range.",
         technique="Lean 4 proof over hand-written model + kernel translated from source + differential correspondence",
         design="5 (C14)"),
+    "C12": dict(
+        text="Total executable Lean model of parse_op/parse_args/parse_arg (well-founded recursion, no fuel) over constants regenerated from the source; theorems: every string "
+             "yields a tree, a SyntaxError or one of five characterised internal kinds (parse_total_cases), every caret position is inside the caller's string "
+             "(parse_err_pos_in_range, all strings), token-level space invariance, obligations over the extracted operator/literal tables, refutation witnesses for print_parse "
+             "(decide +kernel) + exhaustive (<=4/5 tokens) and random correspondence of tree/error/carets with the real parser + five oracles on the real code "
+             "(exception class, carets, space insertion, print/re-parse, public ops never quote foreign text).",
+        note="Trusted: Lean kernel, driver, extractor of the parser constants/AST facts, harness. Space invariance is proved at token level only (lifted by the metamorphic oracle); "
+             "print_parse is refuted on the pinned tree (D11, listed in known_findings.json) and no universally quantified partial version is proved; three internal asserts are not proved unreachable.",
+        technique="Lean 4 proof over hand-written total parser model + regenerated constants + exhaustive/random differential correspondence",
+        design="5 (C12)"),
 }
 
 ALL = [f"C{i:02d}" for i in range(1, 18)]
